@@ -292,6 +292,128 @@ def check_C09(tier, seed):
     return rep
 
 
+def family_c04(tier, seed):
+    L, S, A, F, Sub, Ref, Opt, Many, Cmd = gram.Lit, gram.Seq, gram.Alt, gram.Fb, gram.Sub, gram.Ref, gram.Opt, gram.Many, gram.Cmd
+    out = []
+    col = Ref('COLOR')
+    cdef = [('COLOR', None, Cmd('echo red; echo green'))]
+    # several within-word expressions: same shape / different literals, same literals / different levels, different shapes
+    words = [
+        Sub(L('--fg='), F(L('default'), col)), Sub(L('--bg='), F(col, L('default'))),
+        Sub(L('--a='), A(L('x'), L('y'))), Sub(L('--b='), A(L('p'), L('q'))), Sub(L('--c='), A(L('x'), L('y'), L('z'))),
+        Sub(L('--d='), F(L('x'), L('y'))), Sub(L('--e='), F(L('y'), L('x'))), Sub(L('--f='), Opt(L('x')), L('y')),
+        Sub(L('--g='), col), Sub(L('--h='), Ref('_')), Sub(L('--i='), A(col, L('k', 'descr k'))), Sub(L('--j='), F(L('x'), L('y'), L('w'))),
+        Sub(L('--k='), F(A(L('x'), L('y')), L('w'))), Sub(L('--l='), F(L('x'), A(L('y'), L('w')))),
+    ]
+    import itertools
+    rnd = random.Random(seed)
+    pairs = list(itertools.combinations(range(len(words)), 2))
+    rnd.shuffle(pairs)
+    for (i, j) in pairs[:40 if tier == 'quick' else len(pairs)]:
+        out.append(gram.mk('paint', Many(A(words[i], words[j])), cdef))
+    for (i, j, k) in list(itertools.combinations(range(len(words)), 3))[:30 if tier == 'quick' else 200]:
+        out.append(gram.mk('paint', S(A(words[i], words[j]), Opt(words[k]), L('end', 'the end')), cdef))
+    out.append(gram.mk('paint', F(S(L('a', 'da'), words[0]), S(L('b'), words[1]), Many(words[3])), cdef))
+    # shell-specific commands (zsh: compadd kind), built-ins, placeholders
+    out.append({'command': 'tool', 'variants': [S(Ref('U'), Ref('PATH'), Sub(L('u='), Ref('U')), Ref('DIRECTORY'), Ref('ANY'))],
+                'defs': [('U', 'zsh', Cmd('_users')), ('U', 'fish', Cmd('__fish_complete_users')), ('U', None, Cmd('cat /etc/passwd | cut -d: -f1')),
+                         ('U', 'pwsh', Cmd('Get-LocalUser | ForEach-Object { $_.Name }'))]})
+    fams = [('within-word table sharing', out)]
+    fams.append(('exhaustive<=%d' % (4 if tier == 'quick' else 5), gram.exhaustive_family(4 if tier == 'quick' else 5)))
+    fams.append(('random(seed=%d)' % seed, gram.random_family(seed, 150 if tier == 'quick' else 1500)))
+    return fams
+
+
+def check_C04(tier, seed):
+    from . import e4
+    rep = run_e3('C04', tier, seed, family_c04(tier, seed), analyse=e4.analyse)
+    rep.coverage['functions_exercised'] = ['bash::write_completion_script', 'fish::write_completion_script', 'zsh::write_completion_script',
+                                           'pwsh::write_completion_script', 'tables::get_lookup_tables (+ shape_hash / isomorphic_to)'] + rep.coverage['functions_exercised']
+    rep.coverage['what_is_compared'] = ('literal list, description per literal, next state per (state, literal/command/within-word/any-word), candidates per state and level, '
+                                        'start state, command function bodies, registration line -- decoded from the script text by cgv/decoders.py with the shell\'s '
+                                        'indexing base and quoting rules; the decoded automaton (prefix-closed: scripts carry no accepting states) is related by query 1 to '
+                                        'the grammar\'s reference automaton and to the minimised automaton dumped from the library')
+    rep.assumptions.append('only the data statements are read; the run-time code of the fish/zsh/pwsh templates is not executed (those shells are not installed)')
+    rep.assumptions.append('bash scripts carry no descriptions: descriptions are compared for fish, zsh and pwsh only')
+    return rep
+
+
+def family_c16(tier, seed):
+    L, S, A, F, Sub, Ref, Opt, Many, Cmd = gram.Lit, gram.Seq, gram.Alt, gram.Fb, gram.Sub, gram.Ref, gram.Opt, gram.Many, gram.Cmd
+    out = []
+    out.append(gram.mk('cmd', Opt(L('--help'))))
+    out.append(gram.mk('cmd', Many(Opt(A(L('foo'), L('bar'))))))
+    out.append(gram.mk('cmd', S(Opt(L('--verbose')), Opt(Ref('FILE')))))
+    out.append(gram.mk('cmd', S(A(Sub(L('--a='), A(L('x'), L('y'))), Sub(L('--b='), Opt(L('p')), L('q'))), Sub(L('--a='), A(L('x'), L('y'))), L('end', 'the end'))))
+    out.append(gram.mk('cmd', F(S(Sub(L('k='), Cmd('echo v')), L('a')), S(Ref('PATH'), L('b', 'descr b')), Ref('U'))))
+    out.append(gram.mk('cmd', S(L('a', 'say "hi"'), L('b\\c', 'back\\slash'), Cmd('echo "q" \\ $x'), Ref('we"ird'))))
+    fams = [('dump shapes', out)]
+    fams.append(('exhaustive<=%d' % (4 if tier == 'quick' else 5), gram.exhaustive_family(4 if tier == 'quick' else 5)))
+    fams.append(('random(seed=%d)' % seed, gram.random_family(seed, 100 if tier == 'quick' else 1000)))
+    return fams
+
+
+def check_C16(tier, seed):
+    from . import e16, e1, mirsym, autosmt
+    rep = run_e3('C16', tier, seed, family_c16(tier, seed), analyse=e16.analyse)
+    stats = autosmt.Stats()
+    mir = mirsym.dump_mir()
+    # E1 for make_dot_string_constant (well-terminated DOT string for all ASCII strings up to N bytes)
+    N = 4 if tier == 'quick' else 6
+    cgvp = common.Cgv()
+    ktext = mirsym.function_text(mir, 'make_dot_string_constant')
+    nvalid = e1.validate_translator(cgvp, {'dot': ktext}, seed)
+    holds, cex, models, ncells = e1.solve_kernel(ktext, 'dot', N, stats, require='terminated')
+    if not holds:
+        const = cgvp.strconst(cex)['dot']
+        okc, _, _ = __import__('cgv.quoting', fromlist=['decode']).decode('dot', const.encode())
+        if okc:
+            raise Inconclusive('E1 counterexample for make_dot_string_constant does not reproduce')
+        rep.violation('dot-string-constant-not-terminated', 'make_dot_string_constant(%r) = %s is not one well-terminated DOT string' % (cex, const),
+                      {'string': cex, 'constant': const})
+    cgvp.close()
+    rows, assumptions, bad = e16.check_sites(mir, stats)
+    # replay: only a hostile text that really breaks a real dump is a violation
+    if bad:
+        reproduced = False
+        for (kind, t, g) in e16.replay_battery():
+            text = gram.print_grammar(g)
+            rc, dfa_txt, rx_txt, err = e16.dump_files(text, 'bash')
+            if rc != 0:
+                continue
+            for fname, content in (('--dfa', dfa_txt), ('--regex', rx_txt)):
+                try:
+                    e16.dotread.parse(content)
+                except e16.dotread.DotError as e:
+                    reproduced = True
+                    rep.violation('%s-malformed:%s' % (fname.strip('-'), kind),
+                                  'a %s containing %r makes the %s file invalid DOT (%s); solver witness for the format site %r: %r'
+                                  % (kind, t, fname, e, bad[0][1], bad[0][3]), {'grammar': text, 'dot': content})
+        if not reproduced:
+            rep.inconclusive.append('the solver finds label values that break the format site %r (%r) but none of the replay grammars reproduces it'
+                                    % (bad[0][1], bad[0][3]))
+    # translator validation of the template decoding on real dumps
+    files = []
+    for g in family_c16(tier, seed)[0][1][:5]:
+        rc, dfa_txt, rx_txt, err = e16.dump_files(gram.print_grammar(g), 'fish')
+        if rc == 0:
+            files += [dfa_txt, rx_txt]
+    nlines = e16.lines_in_site_languages(mir, files, stats)
+    rep.coverage['e1_prime'] = {'format_sites': rows, 'real_lines_matched_against_site_languages': nlines,
+                                'make_dot_string_constant': {'bound': 'all ASCII strings up to %d bytes' % N, 'holds': holds, 'cells': ncells,
+                                                             'translator_validation_strings': nvalid},
+                                'label_domain': 'literal / description / nonterminal / command text: every string (z3 sequence theory, unbounded length)'}
+    for k, v in stats.queries.items():
+        rep.coverage['solver_queries'][k] = rep.coverage['solver_queries'].get(k, 0) + v
+    rep.coverage['solver_queries_total'] = sum(rep.coverage['solver_queries'].values())
+    rep.coverage['functions_exercised'] = ['dfa::do_to_dot', 'regex::do_to_dot', 'regex::make_dot_string_constant', 'DFA::to_dot', 'Regex::to_dot'] + rep.coverage['functions_exercised']
+    rep.assumptions += sorted(assumptions)
+    rep.assumptions.append('the buffer filled by diagnostic_display_input is over-approximated by "any string" before its replace chain is applied')
+    rep.assumptions.append('DOT statement language and DOT reader cgv/dotread.py follow the DOT grammar; graphviz itself is not installed')
+    rep.assumptions.append('the fallback level of a within-word item is not shown in the --dfa drawing, so it is not compared')
+    return rep
+
+
 # ---------------------------------------------------------------------------------------------
 # E2: symbolic execution of the emitted bash script
 
@@ -625,6 +747,8 @@ def check_C07(tier, seed):
 
 
 CHECKS = {
+    'C16': check_C16,
+    'C04': check_C04,
     'C07': check_C07,
     'C17': check_C17,
     'C01': check_C01,
